@@ -53,7 +53,9 @@ func c20W() []interface{} {
 }
 
 func c20Paths() []string {
-	return []string{"a", "a.b", "a.0", "a.b.0", "", ".", "a.", ".a", "a..b", "$", "a.$", "a.$[]", "a.$[x]", "a.$[x", "0", "a.-1", "a.01", "a.1048576", "_id", "_id.k"}
+	return []string{"a", "a.b", "a.0", "a.b.0", "", ".", "a.", ".a", "a..b", "$", "a.$", "a.$[]", "a.$[x]", "a.$[x", "0", "a.-1", "a.01", "a.1048576", "_id", "_id.k",
+		// indexes at and next to the largest integer, far beyond any array, and numerals that only some parsers accept
+		"a.9223372036854775807", "a.9223372036854775806", "a.4294967296", "a.+1", "a.1e2", "a.b.9223372036854775807"}
 }
 
 func c20Docs() []bson.D {
@@ -388,6 +390,69 @@ func c20Cases(quick bool) []c20Case {
 			}
 		})
 	}
+	// reads with every combination of extreme skip / limit / batch size values
+	extremes := []int64{0, 1, -1, 2, math.MaxInt32, math.MaxInt32 + 1, math.MaxInt64, math.MinInt64, math.MaxInt64 - 1}
+	for _, skip := range extremes {
+		skip := skip
+		add("driver-window", true, func() string {
+			return fmt.Sprintf("Find / FindOne / CountDocuments / Distinct with skip=%d and every limit of %v, with and without sort", skip, extremes)
+		}, func(w *world.World) {
+			load(w)
+			c := w.C("d", "c")
+			for _, limit := range extremes {
+				for _, sortSpec := range []bson.D{nil, bD("a", int32(-1))} {
+					fo := options.Find().SetSkip(skip).SetLimit(limit).SetBatchSize(int32(limit))
+					if sortSpec != nil {
+						fo.SetSort(sortSpec)
+					}
+					if cur, err := c.Find(w.Ctx, bD(), fo); err == nil {
+						var docs []bson.D
+						_ = cur.All(w.Ctx, &docs)
+					}
+					if cur, err := c.Find(w.Ctx, bD("a", bD("$exists", true)), fo); err == nil {
+						for cur.Next(w.Ctx) {
+						}
+					}
+				}
+				_, _ = c.CountDocuments(w.Ctx, bD(), options.Count().SetSkip(skip).SetLimit(limit))
+				_, _ = c.CountDocuments(w.Ctx, bD("a", bD("$exists", true)), options.Count().SetLimit(limit))
+			}
+			_ = c.FindOne(w.Ctx, bD(), options.FindOne().SetSkip(skip)).Err()
+			_ = c.FindOne(w.Ctx, bD(), options.FindOne().SetSkip(skip).SetSort(bD("a", int32(1)))).Err()
+		})
+	}
+	// listings filtered on every field of the specifications they produce
+	listFields := []string{"name", "sizeOnDisk", "empty", "type", "options", "info", "info.uuid", "info.readOnly", "idIndex", "idIndex.v", "idIndex.key", "idIndex.key._id", "idIndex.name", "idIndex.namespace", "v", "key", "key._id", "unique", "nope"}
+	for wi, wv := range W {
+		if quick && wi%3 != 0 {
+			continue
+		}
+		wv := wv
+		add("driver-listings", true, func() string {
+			return "ListDatabases / ListDatabaseNames / ListCollections / ListCollectionNames / ListCollectionSpecifications filtered on each specification field with operand " + short(J(wv), 200)
+		}, func(w *world.World) {
+			load(w)
+			_, _ = w.C("d", "c").Indexes().CreateOne(w.Ctx, mongo.IndexModel{Keys: bD("a", int32(1)), Options: options.Index().SetUnique(false)})
+			db := w.Client.Database("d")
+			for _, f := range listFields {
+				for _, q := range []bson.D{{{Key: f, Value: wv}}, {{Key: f, Value: bD("$gt", wv)}}, {{Key: f, Value: bD("$in", bson.A{wv, int32(2), int64(0)})}}, {{Key: f, Value: bD("$type", "number")}}, {{Key: f, Value: bD("$mod", bson.A{int32(2), int32(0)})}}, {{Key: f, Value: bD("$bitsAllSet", int32(2))}}} {
+					_, _ = w.Client.ListDatabases(w.Ctx, q)
+					_, _ = w.Client.ListDatabaseNames(w.Ctx, q)
+					if cur, err := db.ListCollections(w.Ctx, q); err == nil {
+						var specs []bson.M
+						_ = cur.All(w.Ctx, &specs)
+					}
+					_, _ = db.ListCollectionNames(w.Ctx, q)
+					_, _ = db.ListCollectionSpecifications(w.Ctx, q)
+				}
+			}
+			if cur, err := w.C("d", "c").Indexes().List(w.Ctx); err == nil {
+				var specs []bson.M
+				_ = cur.All(w.Ctx, &specs)
+			}
+			_, _ = w.C("d", "c").Indexes().ListSpecifications(w.Ctx)
+		})
+	}
 	// find-one-and-modify calls in every combination of their options, with updates that change the document, leave it
 	// as it is, or are rejected, on filters that match and that match nothing
 	type famUpdate struct {
@@ -683,7 +748,7 @@ func init() {
 		r.Set("exhaustive", ran == int64(total) && !r.TooMany())
 		r.Set("worker_processes", int64(n))
 		r.Set("samples", []interface{}{map[string]interface{}{"paths": c20Paths()}, map[string]interface{}{"operands": short(J(bson.A(c20W()[:30])), 1500)}})
-		r.Set("rule", "wrong-type-everywhere grammar: every query operator x every operand of a 50-value pool (one value of every supported BSON type, non-finite and extreme numbers, empty containers, nested empties, $-keys, empty keys, 40-fold nesting, a 5000-character string) x 20 paths (empty, dotted oddly, positional, numeric, huge index) on 12 documents (document-, binary- and NaN-valued _id, 32-fold nesting, empty keys) through mongokit.Match; top-level operators and every $jsonSchema keyword x operands; every update operator x operand x path through mongokit.Apply (with/without upsert and array filters), operator values that are not documents, $push/$addToSet modifiers x operands, array filters of every shape; projections, sorts and distinct x operands x paths; bsonkit Get/All/Put/Unset/Increment/Multiply/Push/Pop x operands x paths and Compare/Add/Mul/Mod on all operand pairs; driver-level Find/Count/Distinct/Delete/Update/upsert/FindOneAnd*/Replace/BulkWrite/CreateIndex on a collection holding every document shape, find-one-and-modify calls in every combination of returnDocument x upsert x sort x projection x matching/non-matching filter x effective/no-op/rejected updates and identical/different replacements, every ordered pair of 48 index definitions (coinciding names, keys, uniqueness, partial filters, expiry) through CreateOne/CreateMany/List/DropOne/DropOneWithKey, incl. update/replace/delete of documents with document- and binary-valued _id. Every case runs under recover() in a worker process with an address-space limit and a 60 s watchdog; after every engine-level case a probe write must succeed.")
+		r.Set("rule", "wrong-type-everywhere grammar: every query operator x every operand of a 50-value pool (one value of every supported BSON type, non-finite and extreme numbers, empty containers, nested empties, $-keys, empty keys, 40-fold nesting, a 5000-character string) x 26 paths (empty, dotted oddly, positional, numeric, indexes at and around 2^63-1 and 2^32, signed and exponent numerals) on 12 documents (document-, binary- and NaN-valued _id, 32-fold nesting, empty keys) through mongokit.Match; top-level operators and every $jsonSchema keyword x operands; every update operator x operand x path through mongokit.Apply (with/without upsert and array filters), operator values that are not documents, $push/$addToSet modifiers x operands, array filters of every shape; projections, sorts and distinct x operands x paths; bsonkit Get/All/Put/Unset/Increment/Multiply/Push/Pop x operands x paths and Compare/Add/Mul/Mod on all operand pairs; driver-level Find/Count/Distinct/Delete/Update/upsert/FindOneAnd*/Replace/BulkWrite/CreateIndex on a collection holding every document shape, reads with every pair of extreme skip/limit/batch-size values, listings of databases and collections filtered on every field of their specifications, find-one-and-modify calls in every combination of returnDocument x upsert x sort x projection x matching/non-matching filter x effective/no-op/rejected updates and identical/different replacements, every ordered pair of 48 index definitions (coinciding names, keys, uniqueness, partial filters, expiry) through CreateOne/CreateMany/List/DropOne/DropOneWithKey, incl. update/replace/delete of documents with document- and binary-valued _id. Every case runs under recover() in a worker process with an address-space limit and a 60 s watchdog; after every engine-level case a probe write must succeed.")
 		r.Assume("panics whose message starts with 'lungo: ' (documented: unsupported driver options, nil arguments) are excluded", "BSON types lungo does not support at all (MinKey, MaxKey, JavaScript, Symbol, Undefined, DBPointer) are not part of the operand pool")
 		if ran < 20000 {
 			r.Broken("vacuity: only %d cases ran", ran)
